@@ -139,6 +139,12 @@ def run(chk):
     beh.append(["reset"] + ["wire k=%d p=7" % k for k in range(0, NW, step)])
     beh.append(["reset"] + ["wire k=%d p=8 sock=1" % k for k in range(1, NW, step * 2)])
     beh.append(["reset"] + ["prehs k=%d" % k for k in range(2, NW, step)] + ["prehs k=0 lenoverride=4294967295", "prehs k=0 lenoverride=0", "prehs k=1 lenoverride=70000"])
+    # attacker-chosen endpoint texts in otherwise valid announces (with a shard assigned, so that a fetch is pending), the announcer's
+    # session then ends, and the daemon's loop keeps ticking: the node falls back to the advertised endpoint at a fetch retry
+    EPS = ["hugeport", "port65536", "port0", "noport", "emptyport", "neg", "alpha", "colons", "long", "nul", "v6", "space", "ok"]
+    for k, ep in enumerate(EPS):
+        beh.append(["reset", "announce c=%d m=ok p=%d assign=1 ep=%s" % (1 + k % 3, 11 + k, ep), "peerdrop p=%d" % (11 + k), "ticks n=12 ms=1500",
+                    "announce c=%d m=ok p=%d assign=1 ep=%s sock=1" % (2 + k % 2, 31 + k, ep), "ticks n=3 ms=700", "peerdrop p=%d" % (31 + k), "ticks n=40 ms=2000", "other k=0 p=5"])
     run_driver(chk, beh, "tlc-sequences")
     if thorough:
         run_driver(chk, beh[: len(hists) + 60], "tlc-sequences-asan", flavour="asan")
